@@ -34,7 +34,9 @@ TWellFormed == /\ WellFormed
                     IN d.kind \in Kinds /\ d.acc \in 0..3 /\ d.fl \subseteq FlagsAll
                        /\ d.del \in Dels /\ d.close \in Closes
 
+\* Every record is judged: a rejected record is printed (with the answers F
+\* demands, so that the driver can name the difference) and the run goes on.
 Match == (out # Pending) =>
            \/ Accept(out, Traces[idx].got)
-           \/ PrintT(<<"REJECTED", idx>>) /\ FALSE
+           \/ PrintT(<<"REJECTED", idx, ToJson(out)>>)
 =============================================================================
